@@ -1,6 +1,11 @@
 import PyYetiVerif.Model.SuCoef
 import PyYetiVerif.Model.SuCoefCoupled
 import PyYetiVerif.Model.SuPartition
+import PyYetiVerif.Model.SuCoefCuts
+import PyYetiVerif.Model.SuCoefExp1
+import PyYetiVerif.Model.SuCoefStatic
+import PyYetiVerif.Model.SuCoefPreEig
+import PyYetiVerif.Model.SuCoefCplxUnc
 /-! Line protocol for C01.  Floats travel as decimal `UInt64` bit patterns.
 
 `coef <m|none> <b> <k> <h> <rb: n|0|1> <rf: 0|1>`
@@ -19,6 +24,28 @@ import PyYetiVerif.Model.SuPartition
 `rbrun <order> <h> <nt> <d0> <v0> <rbforce: nt>` -> `ok <d nt> <v nt>`   (`rbStep` loop, one mode)
 `exp2 <order> <n> <E: 2n*2n> <P: 2n*n> <Q: 2n*n | absent for order 0> <d0: n> <v0: n> <nt> <imf: n*nt>`
       -> `ok <d n*nt> <v n*nt>`   (`runExp`)
+`exp1 <order> <dtype: int64|float32|float64> <n> <A: n*n> <E: n*n> <P: n*n> <Q: n*n | absent for order 0>
+     <d0: n | y d0 × n> <nt> <force: n*nt>`
+      -> `ok <history dtype> <velocity dtype> <d n*nt> <v n*nt>`   (`exp1Solve` at Float)
+`exp1x …` the same request, evaluated over `Rat` on the exact values of the doubles
+      -> `ok <history dtype> <velocity dtype> <d n*nt> <v n*nt>` with every number as `num/den`
+`staticc <ne> <Kee: ne*ne> <F0el: ne>` -> `ok <x: ne as num/den>` | `singular`   (`staticCoupledEl` over `Rat`)
+`msolve <n> <M: n*n> <nt> <F: n*nt>` -> `ok <M^-1 F: n*nt>` | `singular`         (`massSolve` at Float, per sample)
+`accelc <n> <mkind: none|mat> [M: n*n] <B: n*n> <K: n*n> <nt> <d: n*nt> <v: n*nt> <F: n*nt>`
+      -> `ok <a: n*nt>` | `singular`                                              (`calcAcceCoupled` at Float)
+`pe <n> <bkind: vec|mat> <b: n | n*n> <phi: n*n> <d0: n | y …> <v0: n | y …> <nt> <F: n*nt>`
+      -> `ok <modal b: n*n> <modal F: n*nt> <q0: n | y n values> <qv0: n | y n values>` | `singular`
+         (`preEigProblem` at Float)
+`perec <n> <phi: n*n> <nt> <d: n*nt> <v: n*nt> <a: n*nt>` -> `ok <phi d> <phi v> <phi a>`   (`preEigSolution`)
+`pex <n> <bkind> <b> <phi: n*n> <w: n> <static 0|1> <d0 opt> <v0 opt> <F0: n>`
+      -> `ok <modal b: n*n> <d: n> <v: n> <a: n>` as `num/den` | `singular`
+         (`preEigProblem`, `modalFirstSampleUnc`, `preEigSolution` over `Rat`; modal system uncoupled)
+`cu <order> <h> <n> <mkind: none|vec> [m: 2n] <b: 2n> <k: 2n> <rb: n | c i…> <static 0|1> <d0: n | y 2n values>
+    <v0: n | y 2n values> <nt> <force: 2*n*nt row-major> <N> <lam: 2N> <urV: 2*ne*N> <urD: 2*ne*N> <invV: 2*N*ne>
+    <invD: 2*N*ne>`   (complex numbers as re im pairs; `ne` = number of elastic rows by the model's partition)
+      -> `ok <d: 2*n*nt> <v: 2*n*nt> <a: 2*n*nt>` | `err:sizes`
+         (`SolveUnc.tsolve` on uncoupled equations with complex-dtype coefficients: `mkPart`, `initD`, `cplxUncRbDV`,
+          `cplxUncRbAcc`, `coupledRunCplx` on the implementation's own pc, `calcAcce`)
 anything else -> `bad-op`. -/
 open PyYetiVerif.SuCoef PyYetiVerif.SuPartition
 
@@ -46,9 +73,8 @@ end CF
 def fbits (s : String) : Option Float := (s.toNat?).map fun n => Float.ofBits (UInt64.ofNat n)
 def showF (x : Float) : String := toString x.toBits.toNat
 
-def cutsF (h : Float) : Cuts Float :=
-  { rbTol := 0.005, critTol := 1.0e-8, veloCut := 1e-5 / Float.sqrt h,
-    dispCut := 10 * Float.pow (1e-10 / h) (1 / 3) }
+/-- the cut-offs as the source spells them (`Generated/SuCoefCuts.lean`, regenerated on every run) -/
+def cutsF (h : Float) : Cuts Float := cutsGenF h
 
 def regimeName : Regime → String
   | .rigid => "rigid" | .rigidVelo => "rigidVelo" | .rigidFull => "rigidFull"
@@ -79,7 +105,7 @@ def doCplx (ws : List String) : Option String := do
     let im ← fbits ims
     let h ← fbits hs
     let lam : CF := ⟨re, im⟩
-    let small : Bool := Float.sqrt (re * re + im * im) < 5.0e-5
+    let small : Bool := cplxIsSmallF re im
     let c : CF × CF × CF := if small then cplxSmall ⟨h, 0⟩ else cplxCoef lam ⟨h, 0⟩
     pure ((if small then "1 " else "0 ") ++ " ".intercalate
       ([c.1.re, c.1.im, c.2.1.re, c.2.1.im, c.2.2.re, c.2.2.im].map showF))
@@ -133,7 +159,7 @@ def doPartC (ws : List String) : Option String := do
     let (bl, rest) ← takeN fbits (nr * nr) rest
     if !rest.isEmpty then none
     let rows (l : List Float) : List (List Float) := (List.range nr).map fun i => (l.drop (i * nr)).take nr
-    let p := mkPart n none rf (smallCoupled Float.abs 0 (rows kl) (rows bl) 0.005)
+    let p := mkPart n none rf (smallCoupled Float.abs 0 (rows kl) (rows bl) rbTolPartF)
     pure ("|".intercalate [showIdx p.nonrf, showIdx p.rf, showIdx p.rb, showIdx p.el,
       showIdx p.rb', showIdx p.el', showIdx (coefRb p), if slicesFlag p then "1" else "0"])
   | [] => none
@@ -177,7 +203,7 @@ def doCpl (ws : List String) : Option String := do
         invD := fun k j => invD.getD (k.val * n + j.val) z }
     let fa := fl.toArray
     let imf : List (Fin n → Float) := (List.range nt).map fun t => fun j => fa.getD (j.val * nt + t) 0
-    let isSmall : CF → Bool := fun l => Float.sqrt (l.re * l.re + l.im * l.im) < 5.0e-5
+    let isSmall : CF → Bool := fun l => cplxIsSmallF l.re l.im
     let d0a := d0.toArray
     let v0a := v0.toArray
     let out := (coupledRun order1 isSmall (⟨h, 0⟩ : CF) e (fun j => d0a.getD j.val 0)
@@ -196,11 +222,7 @@ def doRbRun (ws : List String) : Option String := do
     let v0 ← fbits v0s
     let (f, rest) ← takeN fbits nt rest
     if !rest.isEmpty then none
-    let rec go : List Float → Float × Float → List (Float × Float)
-      | [], _ => []
-      | [_], dv => [dv]
-      | f0 :: f1 :: fs, dv => dv :: go (f1 :: fs) (rbStep order1 h dv f0 f1)
-    let hist := go f (d0, v0)
+    let hist := rbRun order1 h (d0, v0) f
     pure ("ok " ++ " ".intercalate ((hist.map Prod.fst ++ hist.map Prod.snd).map showF))
   | _ => none
 
@@ -238,6 +260,334 @@ def doExp2 (ws : List String) : Option String := do
     pure ("ok " ++ showRows nt (out.map (·.1)) ++ " " ++ showRows nt (out.map (·.2)))
   | _ => none
 
+
+/-! ### exact rationals: the value of a double, `num/den` output -/
+
+instance : Zero Rat := ⟨0⟩
+
+/-- the exact value of a finite double given by its bit pattern -/
+def ratOfBits (s : String) : Option Rat := do
+  let b ← s.toNat?
+  let neg : Bool := b / 2 ^ 63 % 2 == 1
+  let e : Nat := b / 2 ^ 52 % 2048
+  let f : Nat := b % 2 ^ 52
+  let sgn (k : Nat) : Int := if neg then -(k : Int) else (k : Int)
+  if e == 2047 then none
+  else if e == 0 then pure (mkRat (sgn f) (2 ^ 1074))
+  else
+    let m : Nat := 2 ^ 52 + f
+    if e ≥ 1075 then pure ((sgn (m * 2 ^ (e - 1075)) : Int) : Rat) else pure (mkRat (sgn m) (2 ^ (1075 - e)))
+
+def showQ (r : Rat) : String := s!"{r.num}/{r.den}"
+
+def qAbs (x : Rat) : Rat := if x < 0 then -x else x
+def qIsZero (x : Rat) : Bool := x == 0
+def qAbsLt (a b : Rat) : Bool := decide (qAbs a < qAbs b)
+def fIsZero (x : Float) : Bool := x == 0.0
+def fAbsLt (a b : Float) : Bool := Float.abs a < Float.abs b
+
+/-- the value of a generated literal `(mantissa, exponent10)` -/
+def decQ (d : Nat × Int) : Rat :=
+  if d.2 ≥ 0 then ((d.1 * 10 ^ d.2.toNat : Nat) : Rat) else mkRat d.1 (10 ^ (-d.2).toNat)
+
+def matOf {β : Type} (z : β) (a : Array β) (nc : Nat) {r c : Nat} : Fin r → Fin c → β :=
+  fun i j => a.getD (i.val * nc + j.val) z
+
+def vecOf {β : Type} (z : β) (a : Array β) {r : Nat} : Fin r → β := fun i => a.getD i.val z
+
+/-- column `t` of a row-major `n × nt` array -/
+def colOf {β : Type} (z : β) (a : Array β) (nt t : Nat) {n : Nat} : Fin n → β :=
+  fun j => a.getD (j.val * nt + t) z
+
+def readOptVecG {β : Type} (rd : String → Option β) (n : Nat) (ws : List String) :
+    Option (Option (List β) × List String) :=
+  match ws with
+  | "n" :: r => some (none, r)
+  | "y" :: r => (takeN rd n r).map fun (l, r) => (some l, r)
+  | _ => none
+
+def readNat (ws : List String) : Option (Nat × List String) :=
+  match ws with | s :: r => s.toNat?.map fun x => (x, r) | [] => none
+
+def showRowsG {β : Type} {n : Nat} (sh : β → String) (z : β) (nt : Nat) (samples : Array (Fin n → β)) : String :=
+  " ".intercalate ((List.finRange n).flatMap fun j =>
+    (List.range nt).map fun t => sh ((samples.getD t fun _ => z) j))
+
+def readDtype (s : String) : Option Dtype :=
+  match s with
+  | "int64" => some .int64 | "float32" => some .float32 | "float64" => some .float64
+  | "complex128" => some .complex128 | _ => none
+
+/-- conversion of a double on assignment into an array of the given dtype -/
+def storeF (d : Dtype) (x : Float) : Float :=
+  match d with
+  | .int64 => x.toInt64.toFloat
+  | .float32 => x.toFloat32.toFloat
+  | _ => x
+
+/-- the same over the rationals: only the float64 history of the source is exact there -/
+def storeQ (d : Dtype) (x : Rat) : Rat :=
+  match d with
+  | .int64 => ((if x < 0 then -((-x).floor) else x.floor : Int) : Rat)
+  | _ => x
+
+/-- `SolveExp1(A, h, order).tsolve(force, d0)` on given `E, P, Q` -/
+def doExp1G {β : Type} [Add β] [Mul β] [Zero β] (rd : String → Option β) (sh : β → String) (z : β)
+    (store : Dtype → β → β) (ws : List String) : Option String := do
+  match ws with
+  | os :: ds :: ns :: rest =>
+    let order1 ← match os with | "1" => some true | "0" => some false | _ => none
+    let fd ← readDtype ds
+    let n ← ns.toNat?
+    let (A, rest) ← takeN rd (n * n) rest
+    let (E, rest) ← takeN rd (n * n) rest
+    let (P, rest) ← takeN rd (n * n) rest
+    let (Q, rest) ← if order1 then takeN rd (n * n) rest else some ([], rest)
+    let (d0, rest) ← readOptVecG rd n rest
+    let (nt, rest) ← readNat rest
+    let (fl, rest) ← takeN rd (n * nt) rest
+    if !rest.isEmpty then none
+    let c : Exp1Coef β n := ⟨matOf z E.toArray n, matOf z P.toArray n, matOf z Q.toArray n⟩
+    let fa := fl.toArray
+    let force : List (Fin n → β) := (List.range nt).map fun t => colOf z fa nt t
+    let out := (exp1Solve order1 (store (exp1HistDtype fd)) (matOf z A.toArray n) c
+      (d0.map fun l => vecOf z l.toArray) force).toArray
+    pure ("ok " ++ (exp1HistDtype fd).name ++ " " ++ (exp1VeloDtype fd).name ++ " "
+      ++ showRowsG sh z nt (out.map (·.1)) ++ " " ++ showRowsG sh z nt (out.map (·.2)))
+  | _ => none
+
+/-- `_init_dv`, coupled static branch, over the rationals -/
+def doStaticC (ws : List String) : Option String := do
+  match ws with
+  | ns :: rest =>
+    let ne ← ns.toNat?
+    let (K, rest) ← takeN ratOfBits (ne * ne) rest
+    let (F0, rest) ← takeN ratOfBits ne rest
+    if !rest.isEmpty then none
+    match staticCoupledEl qIsZero qAbsLt (matOf (0 : Rat) K.toArray ne (r := ne) (c := ne))
+        (vecOf (0 : Rat) F0.toArray) with
+    | none => pure "singular"
+    | some x => pure ("ok " ++ " ".intercalate ((List.finRange ne).map fun i => showQ (x i)))
+  | [] => none
+
+/-- `la.lu_solve(self.invm, force)` sample by sample -/
+def doMSolve (ws : List String) : Option String := do
+  match ws with
+  | ns :: rest =>
+    let n ← ns.toNat?
+    let (M, rest) ← takeN fbits (n * n) rest
+    let (nt, rest) ← readNat rest
+    let (fl, rest) ← takeN fbits (n * nt) rest
+    if !rest.isEmpty then none
+    let Mf : Fin n → Fin n → Float := matOf 0 M.toArray n
+    let fa := fl.toArray
+    let cols := (List.range nt).map fun t => massSolve fIsZero fAbsLt (some Mf) (colOf 0 fa nt t)
+    if cols.any Option.isNone then pure "singular" else
+    let arr : Array (Fin n → Float) := (cols.map fun c => c.getD fun _ => 0).toArray
+    pure ("ok " ++ showRows nt arr)
+  | [] => none
+
+/-- `_calc_acce_kdof`, coupled branch, sample by sample -/
+def doAccelC (ws : List String) : Option String := do
+  match ws with
+  | ns :: mk :: rest =>
+    let n ← ns.toNat?
+    let (M, rest) : Option (List Float) × List String ←
+      if mk == "none" then some (none, rest)
+      else if mk == "mat" then (takeN fbits (n * n) rest).map fun (l, r) => (some l, r) else none
+    let (B, rest) ← takeN fbits (n * n) rest
+    let (K, rest) ← takeN fbits (n * n) rest
+    let (nt, rest) ← readNat rest
+    let (dl, rest) ← takeN fbits (n * nt) rest
+    let (vl, rest) ← takeN fbits (n * nt) rest
+    let (fl, rest) ← takeN fbits (n * nt) rest
+    if !rest.isEmpty then none
+    let Mf : Option (Fin n → Fin n → Float) := M.map fun l => matOf 0 l.toArray n
+    let Bf : Fin n → Fin n → Float := matOf 0 B.toArray n
+    let Kf : Fin n → Fin n → Float := matOf 0 K.toArray n
+    let (da, va, fa) := (dl.toArray, vl.toArray, fl.toArray)
+    let cols := (List.range nt).map fun t =>
+      calcAcceCoupled fIsZero fAbsLt Mf Bf Kf (colOf 0 da nt t) (colOf 0 va nt t) (colOf 0 fa nt t)
+    if cols.any Option.isNone then pure "singular" else
+    let arr : Array (Fin n → Float) := (cols.map fun c => c.getD fun _ => 0).toArray
+    pure ("ok " ++ showRows nt arr)
+  | _ => none
+
+def readDiagOrFull {β : Type} (rd : String → Option β) (z : β) (n : Nat) (ws : List String) :
+    Option (DiagOrFull β n × List String) :=
+  match ws with
+  | "vec" :: r => (takeN rd n r).map fun (l, r) => (.vec (vecOf z l.toArray), r)
+  | "mat" :: r => (takeN rd (n * n) r).map fun (l, r) => (.mat (matOf z l.toArray n), r)
+  | _ => none
+
+def showOptVec {β : Type} {n : Nat} (sh : β → String) (x : Option (Fin n → β)) : String :=
+  match x with
+  | none => "n"
+  | some v => " ".intercalate ("y" :: (List.finRange n).map fun i => sh (v i))
+
+/-- `_do_pre_eig` (damping) and the `pre_eig` lines of `_init_dva`, at Float -/
+def doPe (ws : List String) : Option String := do
+  match ws with
+  | ns :: rest =>
+    let n ← ns.toNat?
+    let (b, rest) ← readDiagOrFull fbits (0 : Float) n rest
+    let (phi, rest) ← takeN fbits (n * n) rest
+    let (d0, rest) ← readOptVecG fbits n rest
+    let (v0, rest) ← readOptVecG fbits n rest
+    let (nt, rest) ← readNat rest
+    let (fl, rest) ← takeN fbits (n * nt) rest
+    if !rest.isEmpty then none
+    let e : PreEig Float n := ⟨matOf 0 phi.toArray n, fun _ => 0⟩
+    let fa := fl.toArray
+    let force : List (Fin n → Float) := (List.range nt).map fun t => colOf 0 fa nt t
+    match preEigProblem fIsZero fAbsLt e b force (d0.map fun l => vecOf 0 l.toArray)
+        (v0.map fun l => vecOf 0 l.toArray) with
+    | none => pure "singular"
+    | some p =>
+      let bm := " ".intercalate ((List.finRange n).flatMap fun i => (List.finRange n).map fun j => showF (p.b i j))
+      pure ("ok " ++ bm ++ " " ++ showRows nt p.F.toArray ++ " " ++ showOptVec showF p.d0 ++ " "
+        ++ showOptVec showF p.v0)
+  | [] => none
+
+/-- `_solution` with `pre_eig` -/
+def doPeRec (ws : List String) : Option String := do
+  match ws with
+  | ns :: rest =>
+    let n ← ns.toNat?
+    let (phi, rest) ← takeN fbits (n * n) rest
+    let (nt, rest) ← readNat rest
+    let (dl, rest) ← takeN fbits (n * nt) rest
+    let (vl, rest) ← takeN fbits (n * nt) rest
+    let (al, rest) ← takeN fbits (n * nt) rest
+    if !rest.isEmpty then none
+    let e : PreEig Float n := ⟨matOf 0 phi.toArray n, fun _ => 0⟩
+    let (da, va, aa) := (dl.toArray, vl.toArray, al.toArray)
+    let out := (preEigSolution e ((List.range nt).map fun t =>
+      (colOf 0 da nt t, colOf 0 va nt t, colOf 0 aa nt t))).toArray
+    pure ("ok " ++ showRows nt (out.map (·.1)) ++ " " ++ showRows nt (out.map (·.2.1)) ++ " "
+      ++ showRows nt (out.map (·.2.2)))
+  | [] => none
+
+/-- the whole `pre_eig` pipeline on the first sample over the rationals (modal system uncoupled) -/
+def doPex (ws : List String) : Option String := do
+  match ws with
+  | ns :: rest =>
+    let n ← ns.toNat?
+    let (b, rest) ← readDiagOrFull ratOfBits (0 : Rat) n rest
+    let (phi, rest) ← takeN ratOfBits (n * n) rest
+    let (w, rest) ← takeN ratOfBits n rest
+    let (static, rest) ← match rest with
+      | "1" :: r => some (true, r) | "0" :: r => some (false, r) | _ => none
+    let (d0, rest) ← readOptVecG ratOfBits n rest
+    let (v0, rest) ← readOptVecG ratOfBits n rest
+    let (f0, rest) ← takeN ratOfBits n rest
+    if !rest.isEmpty then none
+    let e : PreEig Rat n := ⟨matOf 0 phi.toArray n, vecOf 0 w.toArray⟩
+    match preEigProblem qIsZero qAbsLt e b [vecOf 0 f0.toArray] (d0.map fun l => vecOf 0 l.toArray)
+        (v0.map fun l => vecOf 0 l.toArray) with
+    | none => pure "singular"
+    | some p =>
+      -- `_make_rb_el`, uncoupled: `abs(self.k) < tol`
+      let tol := decQ PyYetiVerif.Generated.SuCoefCuts.rbTolPart
+      let isEl : Fin n → Bool := fun i => !(decide (qAbs (p.k i) < tol))
+      match modalFirstSampleUnc p static isEl with
+      | none => none
+      | some s =>
+        match preEigSolution e [s] with
+        | [(d, v, a)] =>
+          let bm := (List.finRange n).flatMap fun i => (List.finRange n).map fun j => showQ (p.b i j)
+          let sv (x : Fin n → Rat) := (List.finRange n).map fun i => showQ (x i)
+          pure ("ok " ++ " ".intercalate (bm ++ sv d ++ sv v ++ sv a))
+        | _ => none
+  | [] => none
+
+
+instance : BEq CF := ⟨fun a b => a.re == b.re && a.im == b.im⟩
+
+def showCF (z : CF) : String := showF z.re ++ " " ++ showF z.im
+
+def cfAbs (z : CF) : Float := Float.sqrt (z.re * z.re + z.im * z.im)
+
+/-- `SolveUnc(m, b, k, h, rb, order).tsolve(force, d0, v0, static_ic)` for uncoupled equations with complex-dtype
+coefficients (no rf modes): the complex-eigenvalue path with the undamped rigid-body recurrence -/
+def doCu (ws : List String) : Option String := do
+  match ws with
+  | os :: hs :: ns :: mk :: rest =>
+    let order1 ← match os with | "1" => some true | "0" => some false | _ => none
+    let h ← fbits hs
+    let n ← ns.toNat?
+    let (m, rest) : Option (Array CF) × List String ←
+      if mk == "none" then some (none, rest)
+      else if mk == "vec" then (readCF rest n).map fun (a, r) => (some a, r) else none
+    let (b, rest) ← readCF rest n
+    let (k, rest) ← readCF rest n
+    let (rb, rest) ← readOptIdx rest
+    let (static, rest) ← match rest with
+      | "1" :: r => some (true, r) | "0" :: r => some (false, r) | _ => none
+    let readOptC : List String → Option (Option (Array CF) × List String) := fun ws =>
+      match ws with
+      | "n" :: r => some (none, r)
+      | "y" :: r => (readCF r n).map fun (a, r) => (some a, r)
+      | _ => none
+    let (d0, rest) ← readOptC rest
+    let (v0, rest) ← readOptC rest
+    let (nt, rest) ← readNat rest
+    let (fl, rest) ← readCF rest (n * nt)
+    let (N, rest) ← readNat rest
+    let z : CF := ⟨0, 0⟩
+    -- partition: `_make_rb_el`, uncoupled: `abs(self.k) < tol`
+    let kabs : List Float := (List.range n).map fun g => cfAbs (k.getD g z)
+    let p := mkPart n rb [] fun i => smallUnc Float.abs 0 kabs rbTolPartF i
+    let ne := p.el.length
+    let (lam, rest) ← readCF rest N
+    let (urV, rest) ← readCF rest (ne * N)
+    let (urD, rest) ← readCF rest (ne * N)
+    let (invV, rest) ← readCF rest (N * ne)
+    let (invD, rest) ← readCF rest (N * ne)
+    if !rest.isEmpty then none
+    let mOf (g : Nat) : Option CF := m.map fun a => a.getD g z
+    let force (g : Nat) : List CF := (List.range nt).map fun t => fl.getD (g * nt + t) z
+    let useSt := useStatic static d0.isSome (p.el.map fun g => fl.getD (g * nt) z)
+    let dInit (g : Nat) : CF := initD (d0.map fun a => a.getD g z) useSt (p.el.contains g) (k.getD g z)
+      (fl.getD (g * nt) z)
+    let vInit (g : Nat) : CF := initV (v0.map fun a => a.getD g z)
+    -- elastic rows: the modal recurrence on the implementation's own decomposition of the elastic partition
+    let ela := p.el.toArray
+    let e : Eig CF ne N :=
+      { lam := fun j => lam.getD j.val z
+        urV := fun i j => urV.getD (i.val * N + j.val) z
+        urD := fun i j => urD.getD (i.val * N + j.val) z
+        invV := fun j i => invV.getD (j.val * ne + i.val) z
+        invD := fun j i => invD.getD (j.val * ne + i.val) z }
+    let imf : List (Fin ne → CF) := (List.range nt).map fun t => fun i =>
+      let g := ela.getD i.val 0
+      cplxUncRbForce (mOf g) (fl.getD (g * nt + t) z)
+    let isSmall : CF → Bool := fun l => cplxIsSmallF l.re l.im
+    let elOut := (coupledRunCplx order1 isSmall (⟨h, 0⟩ : CF) e (fun i => dInit (ela.getD i.val 0))
+      (fun i => vInit (ela.getD i.val 0)) imf).toArray
+    let rows : List (List CF × List CF × List CF) := (List.range n).map fun g =>
+      match p.el.idxOf? g with
+      | some i =>
+        let d := (List.range nt).map fun t => match elOut[t]? with
+          | some s => if h : i < ne then s.1 ⟨i, h⟩ else z
+          | none => z
+        let v := (List.range nt).map fun t => match elOut[t]? with
+          | some s => if h : i < ne then s.2 ⟨i, h⟩ else z
+          | none => z
+        let a := (List.range nt).map fun t =>
+          match mOf g with
+          | some mm => calcAcce mm (b.getD g z) (k.getD g z) (d.getD t z) (v.getD t z) (fl.getD (g * nt + t) z)
+          | none => calcAcceNone (b.getD g z) (k.getD g z) (d.getD t z) (v.getD t z) (fl.getD (g * nt + t) z)
+        (d, v, a)
+      | none =>
+        -- rigid-body row: the undamped recurrence (the row's `b`, `k` are not used)
+        let hist := cplxUncRbDV order1 (⟨h, 0⟩ : CF) (mOf g) (b.getD g z) (k.getD g z) (dInit g, vInit g) (force g)
+        (hist.map Prod.fst, hist.map Prod.snd, cplxUncRbAcc (mOf g) (b.getD g z) (k.getD g z) (force g))
+    let out (sel : List CF × List CF × List CF → List CF) : String :=
+      " ".intercalate ((rows.map sel).flatten.map showCF)
+    pure ("ok " ++ out (·.1) ++ " " ++ out (·.2.1) ++ " " ++ out (·.2.2))
+  | _ => none
+
 /-- the uncoupled real path of `SolveUnc(m, b, k, h, rb, rf, order).tsolve(force, d0, v0, static_ic)` -/
 def doSys (ws : List String) : Option String := do
   match ws with
@@ -268,7 +618,7 @@ def doSys (ws : List String) : Option String := do
     -- partition bookkeeping
     let nr := nonrf n rf
     let p := mkPart n rb rf fun i => match nr[i]? with
-      | some g => smallUnc Float.abs 0 k 0.005 g
+      | some g => smallUnc Float.abs 0 k rbTolPartF g
       | none => false
     -- get_su_coef(self.m, self.b, self.k, h, self.rb) on the non-rf partitions
     match pvrbOf nr.length (coefRb p) with
@@ -319,6 +669,15 @@ def answer (line : String) : String :=
     | "cpl" :: ws => doCpl ws
     | "rbrun" :: ws => doRbRun ws
     | "exp2" :: ws => doExp2 ws
+    | "exp1" :: ws => doExp1G fbits showF (0 : Float) storeF ws
+    | "exp1x" :: ws => doExp1G ratOfBits showQ (0 : Rat) storeQ ws
+    | "staticc" :: ws => doStaticC ws
+    | "msolve" :: ws => doMSolve ws
+    | "accelc" :: ws => doAccelC ws
+    | "pe" :: ws => doPe ws
+    | "perec" :: ws => doPeRec ws
+    | "pex" :: ws => doPex ws
+    | "cu" :: ws => doCu ws
     | _ => none
   r.getD "bad-op"
 
